@@ -3,6 +3,7 @@ package rules
 import (
 	"go/token"
 	"go/types"
+	"strings"
 	"sync"
 
 	"golang.org/x/tools/go/ssa"
@@ -67,7 +68,8 @@ func sharedOf(p *an.Prog) *shared {
 	return s
 }
 
-// locksOf returns the interprocedural lockset analysis of one package.
+// locksOf returns the interprocedural lockset analysis of one package, or of
+// several analysed together ("drpcstream+drpcwire").
 func locksOf(c *an.Ctx, pkg string) *an.PkgLocks {
 	s := sharedOf(c.P)
 	sharedMu.Lock()
@@ -79,7 +81,7 @@ func locksOf(c *an.Ctx, pkg string) *an.PkgLocks {
 	for _, pr := range s.lt.Problems {
 		c.Undecided("lock table: %s", pr)
 	}
-	pl, err := an.AnalyzeLocks(c.P, s.lt, pkg)
+	pl, err := an.AnalyzeLocks(c.P, s.lt, strings.Split(pkg, "+")...)
 	if err != nil {
 		panic(err)
 	}
